@@ -8,8 +8,9 @@ cd "$W" || exit 2
 mv tests/demo_seeded.rs /tmp/demo_seeded_$$.rs
 echo "== existing suite with the change"; cargo test --offline $F 2>&1 | grep -E "^test result" | head -2
 mv /tmp/demo_seeded_$$.rs tests/demo_seeded.rs
-echo "== demo with the change"; timeout 600 cargo test --offline $F --test demo_seeded 2>&1 | grep -E "^test result|overflowed|SIGABRT|signal|timed out" | head -3
-git stash push -q -- src
-echo "== demo without the change"; timeout 600 cargo test --offline $F --test demo_seeded 2>&1 | grep -E "^test result|overflowed|SIGABRT|signal" | head -3
-git stash pop -q
+echo "== demo with the change"; timeout 900 cargo test --offline $F --test demo_seeded 2>&1 | grep -E "^test result|overflowed|SIGABRT|signal|timed out" | head -3
+git diff -- src > /tmp/seeded_$$.patch
+git apply -R /tmp/seeded_$$.patch
+echo "== demo without the change"; timeout 900 cargo test --offline $F --test demo_seeded 2>&1 | grep -E "^test result|overflowed|SIGABRT|signal" | head -3
+git apply /tmp/seeded_$$.patch; rm -f /tmp/seeded_$$.patch
 git status --short | head
